@@ -3,7 +3,7 @@
 import ast
 import z3
 from . import smt, ropes
-from .values import Unsupported, VInt, VBool, VNone, NONE, VSeq, VTuple, VRef, VFunc, VOpaque, Seg, is_conc, zint, zbool, simp
+from .values import LazyInit, Unsupported, VInt, VBool, VNone, NONE, VSeq, VTuple, VRef, VFunc, VOpaque, Seg, is_conc, zint, zbool, simp
 from .symexec import PathEnd, ReturnSig, BreakSig, ContinueSig, PyExc
 
 MUTATORS = {"append", "pop", "insert", "remove", "extend", "update", "clear", "sort", "reverse", "setdefault",
@@ -170,7 +170,7 @@ def check_ghost_frame(I, lc, fr, snap):
             if cur is before or before is None:
                 continue
             try:
-                same = I.equal(cur, before)
+                same = False if isinstance(before, LazyInit) else I.equal(cur, before)
             except Unsupported:
                 same = False
             st.oblige("%s::loop-frame::%s.field(%s.%s)" % (fr.finfo.qualname, lc["_label"], o.cls if o.kind == "obj" else o.kind, name), same)
